@@ -8,6 +8,7 @@ import (
 	"os"
 	"runtime/debug"
 	"strconv"
+	"strings"
 	"sync/atomic"
 	"syscall"
 	"time"
@@ -140,7 +141,18 @@ func main() {
 		}
 	}
 	if p.Units != nil {
-		r.Explore(p.Units(thorough))
+		units := p.Units(thorough)
+		if f := os.Getenv("VERIF_UNIT_FILTER"); f != "" {
+			// debugging aid: explore only the units whose name contains the filter
+			var keep []*explore.Unit
+			for _, u := range units {
+				if strings.Contains(u.Name, f) {
+					keep = append(keep, u)
+				}
+			}
+			units = keep
+		}
+		r.Explore(units)
 	}
 	o := output{Property: p.ID, Level: p.Level, Technique: p.Technique, Rule: p.Rule, Assumptions: p.Assumptions,
 		Shard: *shard, HasRace: p.Race != nil, WallS: time.Since(t0).Seconds(), Stats: r.Stats}
